@@ -27,25 +27,27 @@ theorem hosts_split (L : List HRange) (i k : Nat) (r : HRange) (hr : L[i]? = som
   rw [← List.append_assoc, List.take_append_drop]
 
 /-- the state `hostlist_filter_regex` works on: one iterator (slot 0), everything in order -/
-structure FilterInv (cfg : Cfg) (e : EL) (i k : Nat) : Prop where
+structure FilterInv (P : HRange → Prop) (e : EL) (i k : Nat) : Prop where
   ids : e.IdsOk
   good : e.Good
-  full : ∀ q ∈ e.ranges, q.PrintsFull cfg
+  full : ∀ q ∈ e.ranges, P q
   coh : Coh e i k
   bound : ∀ q, e.ranges[i]? = some q → k ≤ q.hosts.length
 
 /-- the loop of `hostlist_filter_regex` from any position: what was handed out and kept stays, the
     rest is filtered -/
-theorem filterLoop_spec (cfg : Cfg) (hfix : cfg.fixRemoveDepth = true) (m : Str → Option Bool) (exclude : Bool)
-    (pat : Str) : ∀ (fuel : Nat) (e : EL) (kept : List Str) (i k : Nat), FilterInv cfg e i k →
+theorem filterLoop_spec (cfg : Cfg) (hfix : cfg.fixRemoveDepth = true) (P : HRange → Prop)
+    (hmono : ∀ r r' : HRange, P r → r'.width = r.width → r'.hi ≤ r.hi → r'.single = r.single → P r')
+    (hPF : ∀ r, P r → r.PrintsFull cfg) (m : Str → Option Bool) (exclude : Bool)
+    (pat : Str) : ∀ (fuel : Nat) (e : EL) (kept : List Str) (i k : Nat), FilterInv P e i k →
     e.hosts = kept ++ remaining e.ranges i k → (∀ h ∈ remaining e.ranges i k, (m h).isSome = true) →
     (remaining e.ranges i k).length < fuel →
     ∃ e' it, filterLoop cfg m exclude pat fuel e = .ok e' ∧
       e'.hosts = kept ++ (remaining e.ranges i k).filter (keepOf m exclude) ∧
-      e'.IdsOk ∧ e'.Good ∧ (∀ q ∈ e'.ranges, q.PrintsFull cfg) ∧ e'.its = [(0, it)]
+      e'.IdsOk ∧ e'.Good ∧ (∀ q ∈ e'.ranges, P q) ∧ e'.its = [(0, it)]
   | 0, _, _, _, _, _, _, _, hlt => by omega
   | fuel + 1, e, kept, i, k, hinv, hhosts, hm, hlt => by
-    rcases itNext_spec cfg e hinv.ids hinv.good.1 hinv.full i k hinv.coh hinv.bound with
+    rcases itNext_spec cfg e hinv.ids hinv.good.1 (fun q hq => hPF q (hinv.full q hq)) i k hinv.coh hinv.bound with
       ⟨hrem, it', hnx⟩ | ⟨x, xs, i', k', r', hrem, hnx, hrem', hr', hk1, hk', hx⟩
     · -- the end of the list
       refine ⟨{ e with its := [(0, it')] }, it', ?_, ?_, hinv.ids, hinv.good, hinv.full, rfl⟩
@@ -55,7 +57,7 @@ theorem filterLoop_spec (cfg : Cfg) (hfix : cfg.fixRemoveDepth = true) (m : Str 
     · have hmx : (m x).isSome = true := hm x (by rw [hrem]; simp)
       obtain ⟨b, hb⟩ := Option.isSome_iff_exists.mp hmx
       -- the list after `hostlist_next`: same records, iterator behind x
-      have hinv1 : FilterInv cfg { e with its := [(0, ⟨(i' : Int), (k' : Int) - 1, e.hrAt (i' : Int)⟩)] } i' k' :=
+      have hinv1 : FilterInv P { e with its := [(0, ⟨(i' : Int), (k' : Int) - 1, e.hrAt (i' : Int)⟩)] } i' k' :=
         ⟨hinv.ids, hinv.good, hinv.full, rfl, fun q hq => by
           have : e.ranges[i']? = some q := hq
           rw [hr'] at this
@@ -70,7 +72,7 @@ theorem filterLoop_spec (cfg : Cfg) (hfix : cfg.fixRemoveDepth = true) (m : Str 
       · -- x goes
         simp only [hrm, ↓reduceIte]
         obtain ⟨e2, i2, k2, hrmv, hid2, hg2, hf2, hc2, hb2, hrem2, hh2⟩ :=
-          itRemove_spec cfg hfix _ hinv1.ids hinv1.good hinv1.full i' k' hinv1.coh r' hr' hk1 hk'
+          itRemove_spec cfg hfix P hmono _ hinv1.ids hinv1.good hinv1.full i' k' hinv1.coh r' hr' hk1 hk'
         rw [hrmv]
         simp only
         have hsplit := hosts_split e.ranges i' k' r' hr'
@@ -94,7 +96,7 @@ theorem filterLoop_spec (cfg : Cfg) (hfix : cfg.fixRemoveDepth = true) (m : Str 
           rw [hh2, hrem2, hkept]
           rfl
         have hremxs : remaining e2.ranges i2 k2 = xs := by rw [hrem2]; exact hrem'
-        obtain ⟨e', it, hl, hh', h3, h4, h5, h6⟩ := filterLoop_spec cfg hfix m exclude pat fuel e2 kept i2 k2
+        obtain ⟨e', it, hl, hh', h3, h4, h5, h6⟩ := filterLoop_spec cfg hfix P hmono hPF m exclude pat fuel e2 kept i2 k2
           ⟨hid2, hg2, hf2, hc2, hb2⟩ hh2' (by rw [hremxs]; exact hmxs) (by rw [hremxs]; exact hxs)
         refine ⟨e', it, hl, ?_, h3, h4, h5, h6⟩
         rw [hh', hremxs, hrem]
@@ -106,7 +108,7 @@ theorem filterLoop_spec (cfg : Cfg) (hfix : cfg.fixRemoveDepth = true) (m : Str 
             (kept ++ [x]) ++ remaining e.ranges i' k' := by
           show e.hosts = _
           rw [hhosts, hrem, hrem']; simp
-        obtain ⟨e', it, hl, hh', h3, h4, h5, h6⟩ := filterLoop_spec cfg hfix m exclude pat fuel _ (kept ++ [x]) i' k'
+        obtain ⟨e', it, hl, hh', h3, h4, h5, h6⟩ := filterLoop_spec cfg hfix P hmono hPF m exclude pat fuel _ (kept ++ [x]) i' k'
           hinv1 hh1 (by show ∀ h ∈ remaining e.ranges i' k', _; rw [hrem']; exact hmxs)
           (by show (remaining e.ranges i' k').length < fuel; rw [hrem']; exact hxs)
         refine ⟨e', it, hl, ?_, h3, h4, h5, h6⟩
@@ -120,14 +122,16 @@ theorem filterLoop_spec (cfg : Cfg) (hfix : cfg.fixRemoveDepth = true) (m : Str 
 
 /-- FILTER (repaired D19): `hostlist_filter_regex` leaves exactly the hosts the filter keeps, in
     their order and multiplicity (`m` answers for every host of the list) -/
-theorem filterRegex_spec (cfg : Cfg) (hfix : cfg.fixRemoveDepth = true) (m : Str → Option Bool) (exclude : Bool)
-    (pat : Str) (e : EL) (hid : e.IdsOk) (hg : e.Good) (hf : ∀ q ∈ e.ranges, q.PrintsFull cfg) (hits : e.its = [])
+theorem filterRegex_spec (cfg : Cfg) (hfix : cfg.fixRemoveDepth = true) (P : HRange → Prop)
+    (hmono : ∀ r r' : HRange, P r → r'.width = r.width → r'.hi ≤ r.hi → r'.single = r.single → P r')
+    (hPF : ∀ r, P r → r.PrintsFull cfg) (m : Str → Option Bool) (exclude : Bool)
+    (pat : Str) (e : EL) (hid : e.IdsOk) (hg : e.Good) (hf : ∀ q ∈ e.ranges, P q) (hits : e.its = [])
     (hm : ∀ h ∈ e.hosts, (m h).isSome = true) :
     ∃ e', filterRegex cfg m exclude pat e = .ok e' ∧ e'.hosts = e.hosts.filter (keepOf m exclude) ∧
-      e'.IdsOk ∧ e'.Good ∧ (∀ q ∈ e'.ranges, q.PrintsFull cfg) ∧ e'.its = [] := by
+      e'.IdsOk ∧ e'.Good ∧ (∀ q ∈ e'.ranges, P q) ∧ e'.its = [] := by
   have hrem0 : remaining (itNew e 0).ranges 0 0 = e.hosts := remaining_zero _
   have hlen : e.hosts.length = e.nhosts.toNat := by have := hg.2; omega
-  obtain ⟨e1, it, hl, hh, h3, h4, h5, h6⟩ := filterLoop_spec cfg hfix m exclude pat
+  obtain ⟨e1, it, hl, hh, h3, h4, h5, h6⟩ := filterLoop_spec cfg hfix P hmono hPF m exclude pat
     ((e.nhosts.toNat + 2) * (e.nhosts.toNat + 2)) (itNew e 0) [] 0 0
     ⟨hid, hg, hf, coh_new e hits, fun _ _ => Nat.zero_le _⟩ (by rw [hrem0]; rfl) (by rw [hrem0]; exact hm)
     (by
@@ -147,17 +151,19 @@ def keepAll (env : Env) (rs : List (Bool × Str)) (h : Str) : Bool :=
   rs.all fun p => keepOf (env.rematch p.2) p.1 h
 
 /-- `wcoll_apply_regex` (repaired D19): exactly the hosts that pass every filter stay -/
-theorem applyRegex_spec (cfg : Cfg) (hfix : cfg.fixRemoveDepth = true) (env : Env) :
-    ∀ (rs : List (Bool × Str)) (e : EL), e.IdsOk → e.Good → (∀ q ∈ e.ranges, q.PrintsFull cfg) → e.its = [] →
+theorem applyRegex_spec (cfg : Cfg) (hfix : cfg.fixRemoveDepth = true) (P : HRange → Prop)
+    (hmono : ∀ r r' : HRange, P r → r'.width = r.width → r'.hi ≤ r.hi → r'.single = r.single → P r')
+    (hPF : ∀ r, P r → r.PrintsFull cfg) (env : Env) :
+    ∀ (rs : List (Bool × Str)) (e : EL), e.IdsOk → e.Good → (∀ q ∈ e.ranges, P q) → e.its = [] →
     (∀ p ∈ rs, ∀ h ∈ e.hosts, (env.rematch p.2 h).isSome = true) →
     ∃ e', applyRegex cfg env rs e = .ok e' ∧ e'.hosts = e.hosts.filter (keepAll env rs) ∧
-      e'.IdsOk ∧ e'.Good ∧ (∀ q ∈ e'.ranges, q.PrintsFull cfg) ∧ e'.its = []
+      e'.IdsOk ∧ e'.Good ∧ (∀ q ∈ e'.ranges, P q) ∧ e'.its = []
   | [], e, hid, hg, hf, hits, _ =>
     ⟨e, rfl, (List.filter_eq_self.mpr (by intro a _; rfl)).symm, hid, hg, hf, hits⟩
   | (ex, pat) :: rs, e, hid, hg, hf, hits, hm => by
-    obtain ⟨e1, h1, hh1, hid1, hg1, hf1, hits1⟩ := filterRegex_spec cfg hfix (env.rematch pat) ex pat e hid hg hf hits
+    obtain ⟨e1, h1, hh1, hid1, hg1, hf1, hits1⟩ := filterRegex_spec cfg hfix P hmono hPF (env.rematch pat) ex pat e hid hg hf hits
       (fun h hh => hm (ex, pat) (by simp) h hh)
-    obtain ⟨e2, h2, hh2, hid2, hg2, hf2, hits2⟩ := applyRegex_spec cfg hfix env rs e1 hid1 hg1 hf1 hits1
+    obtain ⟨e2, h2, hh2, hid2, hg2, hf2, hits2⟩ := applyRegex_spec cfg hfix P hmono hPF env rs e1 hid1 hg1 hf1 hits1
       (fun p hp h hh => hm p (by simp [hp]) h (by rw [hh1] at hh; exact (List.mem_filter.mp hh).1))
     refine ⟨e2, ?_, ?_, hid2, hg2, hf2, hits2⟩
     · simp only [applyRegex, h1, h2]
